@@ -48,6 +48,16 @@ def run(tier, seed):
     for s in svgen.sentences(rng, 150 if quick else 4000):
         ins.append(("sv", s, "grammar"))
         ins.append(("sv", damage(s, rng), "grammar-damaged"))
+    # sources whose later part switches the keyword set (closed and unclosed regions): the part BEFORE the directive
+    # uses words as keywords that the region un-reserves, the part inside uses them as identifiers
+    for ver, word in (("1364-2001", "logic"), ("1364-1995", "signed"), ("1364-2001-noconfig", "config"), ("1800-2005", "checker"), ("1364-2005", "bit")):
+        first = {"logic": "module a; task t; return; endtask logic l; endmodule\n", "signed": "module a; wire signed [3:0] w; task t; return; endtask endmodule\n",
+                 "config": "module a; task t; return; endtask endmodule\nconfig c; design a; endconfig\n", "checker": "module a; task t; return; endtask endmodule\nchecker k; endchecker\n",
+                 "bit": "module a; bit b; task t; return; endtask endmodule\n"}[word]
+        body = "module b; reg %s; reg [7:0] q; always @(posedge %s) begin q <= q + 8'd1; end endmodule\n" % (word, word)
+        for close in ("", "`end_keywords\nmodule c; logic x; endmodule\n"):
+            ins.append(("sv", first + '`begin_keywords "%s"\n' % ver + body + close, "keyword-region"))
+            ins.append(("sv", first * 3 + '`begin_keywords "%s"\n' % ver + body * 4 + close, "keyword-region-long"))
     ins += [("lib", "library l a.v, b.v; include \"x\"; config c; design l.a; default liblist l; endconfig", "lib"),
             ("lib", "library l a.v;\nlibrary", "lib-damaged"), ("sv", "", "empty"), ("sv", "@", "junk only"), ("lib", "@", "junk only")]
     hcases = []
